@@ -316,6 +316,22 @@ def site(mi: ModuleInfo, node: ast.AST, func: str = "") -> str:
 _METHOD_FORM = {"round", "clamp", "clip", "abs", "amax", "amin", "squeeze", "reshape", "permute", "t", "transpose", "flatten", "neg", "negative", "contiguous", "unsqueeze",
                 "clamp_min", "clamp_max", "floor", "ceil", "trunc", "nan_to_num", "isnan", "all", "any", "eq", "ne", "sum", "mean", "to"}
 _SIGNATURES: Dict[str, ast.FunctionDef] = {}  # unique package function / constructor names -> def (filled by set_active_repo)
+_NAMEDTUPLES: Dict[str, List[str]] = {}  # NamedTuple classes of the package: name -> field names (filled by set_active_repo)
+
+
+def _nt_fields(call):
+    """Field -> value of a call to a NamedTuple class of the package (None if it is not one, or not bindable)."""
+    if not (isinstance(call, ast.Call) and isinstance(call.func, ast.Name) and call.func.id in _NAMEDTUPLES):
+        return None
+    fields = _NAMEDTUPLES[call.func.id]
+    if any(isinstance(a, ast.Starred) for a in call.args) or any(k.arg is None for k in call.keywords) or len(call.args) > len(fields):
+        return None
+    out = dict(zip(fields, call.args))
+    for k in call.keywords:
+        if k.arg not in fields or k.arg in out:
+            return None
+        out[k.arg] = k.value
+    return out if len(out) == len(fields) else None
 
 
 def _literal_elements(a):
@@ -333,6 +349,42 @@ class _Canon(ast.NodeTransformer):
     def visit_Call(self, node):
         self.generic_visit(node)
         f = node.func
+        # f(*(a, b), c) -> f(a, b, c)
+        if any(isinstance(a, ast.Starred) and isinstance(a.value, (ast.Tuple, ast.List)) for a in node.args):
+            args = []
+            for a in node.args:
+                if isinstance(a, ast.Starred) and isinstance(a.value, (ast.Tuple, ast.List)):
+                    args.extend(a.value.elts)
+                else:
+                    args.append(a)
+            node = ast.Call(func=f, args=args, keywords=node.keywords)
+        # f(**{"a": x, "b": y}) -> f(a=x, b=y)
+        def _kwdict(d):
+            return isinstance(d, ast.Dict) and d.keys and all(z is None or (isinstance(z, ast.Constant) and isinstance(z.value, str) and z.value.isidentifier()) for z in d.keys)
+        if any(k.arg is None and _kwdict(k.value) for k in node.keywords):
+            kws = []
+            for k in node.keywords:
+                if k.arg is None and _kwdict(k.value):
+                    kws.extend(ast.keyword(arg=(z.value if z is not None else None), value=v) for z, v in zip(k.value.keys, k.value.values))
+                else:
+                    kws.append(k)
+            names = [k.arg for k in kws if k.arg is not None]
+            if len(names) == len(set(names)):
+                node = ast.Call(func=f, args=node.args, keywords=kws)
+        # (lambda x, y: body)(a, b) -> body[x := a, y := b]
+        if isinstance(f, ast.Lambda) and not node.keywords and not any(isinstance(a, ast.Starred) for a in node.args):
+            la = f.args
+            if not (la.vararg or la.kwarg or la.kwonlyargs or la.defaults or la.posonlyargs) and len(la.args) == len(node.args):
+                return self.visit(subst(copy.deepcopy(f.body), {p_.arg: a for p_, a in zip(la.args, node.args)}))
+        # getattr(x, "name") -> x.name
+        if isinstance(f, ast.Name) and f.id == "getattr" and len(node.args) == 2 and not node.keywords and isinstance(node.args[1], ast.Constant) and isinstance(node.args[1].value, str) and node.args[1].value.isidentifier():
+            return ast.Attribute(value=node.args[0], attr=node.args[1].value, ctx=ast.Load())
+        # partial(g, *a, **k)(*b, **k2) -> g(*a, *b, **k, **k2)
+        if isinstance(f, ast.Call) and isinstance(f.func, (ast.Name, ast.Attribute)) and ast.unparse(f.func) in ("partial", "functools.partial") and f.args:
+            kws = list(f.keywords) + [k for k in node.keywords]
+            names = [k.arg for k in kws if k.arg is not None]
+            if len(names) == len(set(names)):
+                return self.visit(ast.Call(func=f.args[0], args=list(f.args[1:]) + list(node.args), keywords=kws))
         if isinstance(f, ast.Attribute) and f.attr == "Size" and isinstance(f.value, ast.Name) and f.value.id == "torch" and len(node.args) == 1 and isinstance(node.args[0], ast.Tuple):
             return ast.Call(func=f, args=[ast.List(elts=node.args[0].elts, ctx=ast.Load())], keywords=[])
         if isinstance(f, ast.Attribute) and f.attr == "get" and isinstance(f.value, ast.Dict) and len(node.args) in (1, 2) and not node.keywords and all(k is not None for k in f.value.keys):
@@ -402,6 +454,23 @@ class _Canon(ast.NodeTransformer):
                 return ast.Attribute(value=f.value, attr="ndim", ctx=ast.Load())
             return node
         if isinstance(f, ast.Name):
+            if f.id == "next" and len(node.args) in (1, 2) and not node.keywords and isinstance(node.args[0], ast.GeneratorExp) and len(node.args[0].generators) == 1:
+                # next(e(x) for x in (a, b) if c(x)) -> e(a) if c(a) else (e(b) if c(b) else default)
+                g = node.args[0].generators[0]
+                if not g.is_async and isinstance(g.iter, (ast.Tuple, ast.List)) and 0 < len(g.iter.elts) <= 8 and len(g.ifs) <= 1:
+                    def bind(item):
+                        if isinstance(g.target, ast.Name):
+                            return {g.target.id: item}
+                        if isinstance(g.target, (ast.Tuple, ast.List)) and isinstance(item, (ast.Tuple, ast.List)) and len(item.elts) == len(g.target.elts) and all(isinstance(t, ast.Name) for t in g.target.elts):
+                            return {t.id: v for t, v in zip(g.target.elts, item.elts)}
+                        return None
+                    envs = [bind(it) for it in g.iter.elts]
+                    if all(e is not None for e in envs):
+                        r = node.args[1] if len(node.args) == 2 else ast.Constant(value=None)
+                        for e in reversed(envs):
+                            val = subst(copy.deepcopy(node.args[0].elt), e)
+                            r = ast.IfExp(test=subst(copy.deepcopy(g.ifs[0]), e), body=val, orelse=r) if g.ifs else val
+                        return self.visit(r)
             if f.id in ("all", "any") and len(node.args) == 1 and not node.keywords:
                 vals = _literal_elements(node.args[0])
                 if vals:
@@ -413,6 +482,12 @@ class _Canon(ast.NodeTransformer):
                 return node.args[0]  # int() of a size / bit width / count is the identity
             if f.id == "int" and len(node.args) == 1 and not node.keywords and isinstance(node.args[0], ast.Call) and isinstance(node.args[0].func, ast.Attribute) and node.args[0].func.attr in ("numel", "size", "dim", "item"):
                 return node.args[0]
+            if f.id in ("tuple", "list") and len(node.args) == 1 and not node.keywords and isinstance(node.args[0], (ast.GeneratorExp, ast.ListComp)) and len(node.args[0].generators) == 1:
+                g = node.args[0].generators[0]
+                it = g.iter
+                if not g.ifs and isinstance(it, ast.Call) and isinstance(it.func, ast.Name) and it.func.id == "range" and len(it.args) == 1 and isinstance(it.args[0], ast.Constant) \
+                        and isinstance(it.args[0].value, int) and 0 <= it.args[0].value <= 16 and isinstance(node.args[0].elt, ast.Constant):
+                    return ast.Tuple(elts=[copy.deepcopy(node.args[0].elt) for _ in range(it.args[0].value)], ctx=ast.Load())
             if f.id in ("tuple", "list") and len(node.args) == 1 and not node.keywords and isinstance(node.args[0], ast.Call) and isinstance(node.args[0].func, ast.Name) and node.args[0].func.id == "reversed" and len(node.args[0].args) == 1:
                 return ast.Subscript(value=node.args[0].args[0], slice=ast.Slice(lower=None, upper=None, step=ast.UnaryOp(op=ast.USub(), operand=ast.Constant(value=1))), ctx=ast.Load())
             if f.id in ("tuple", "list") and len(node.args) == 1 and not node.keywords and isinstance(node.args[0], ast.Attribute) and node.args[0].attr == "shape":
@@ -441,6 +516,45 @@ class _Canon(ast.NodeTransformer):
                         return ast.Call(func=f, args=args, keywords=[])
         return node
 
+    def visit_JoinedStr(self, node):
+        self.generic_visit(node)
+        # f"{'lit'}::{x}" -> f"lit::{x}"
+        parts = []
+        for v in node.values:
+            if isinstance(v, ast.FormattedValue) and isinstance(v.value, ast.Constant) and isinstance(v.value.value, (str, int)) and v.conversion == -1 and v.format_spec is None:
+                v = ast.Constant(value=str(v.value.value))
+            if isinstance(v, ast.Constant) and parts and isinstance(parts[-1], ast.Constant):
+                parts[-1] = ast.Constant(value=str(parts[-1].value) + str(v.value))
+            else:
+                parts.append(v)
+        if len(parts) == 1 and isinstance(parts[0], ast.Constant):
+            return parts[0]
+        node.values = parts
+        return node
+
+    def visit_IfExp(self, node):
+        self.generic_visit(node)
+        t = ast.unparse(node.test)
+        o = node.orelse
+        if isinstance(o, ast.IfExp):
+            ot = ast.unparse(o.test)
+            if ot == f"not {t}" or ot == f"not ({t})":
+                node.orelse = o.body
+            elif ot == t:
+                node.orelse = o.orelse
+        if isinstance(node.test, ast.Constant) and isinstance(node.test.value, bool):
+            return node.body if node.test.value else node.orelse
+        # d[k] if k in d else default -> d.get(k, default)
+        te = node.test
+        if isinstance(te, ast.Compare) and len(te.ops) == 1 and isinstance(te.ops[0], (ast.In, ast.NotIn)):
+            cont = te.comparators[0]
+            if isinstance(cont, ast.Call) and isinstance(cont.func, ast.Attribute) and cont.func.attr == "keys" and not cont.args:
+                cont = cont.func.value
+            hit, miss = (node.body, node.orelse) if isinstance(te.ops[0], ast.In) else (node.orelse, node.body)
+            if isinstance(hit, ast.Subscript) and ast.unparse(hit.value) == ast.unparse(cont) and ast.unparse(hit.slice) == ast.unparse(te.left):
+                return ast.Call(func=ast.Attribute(value=cont, attr="get", ctx=ast.Load()), args=[te.left, miss], keywords=[])
+        return node
+
     def visit_Lambda(self, node):
         self.generic_visit(node)
         a = node.args
@@ -466,8 +580,34 @@ class _Canon(ast.NodeTransformer):
         node.args = ast.arguments(posonlyargs=[], args=[ast.arg(arg=x) for x in new], vararg=None, kwonlyargs=[], kw_defaults=[], kwarg=None, defaults=[])
         return node
 
+    def visit_List(self, node):
+        self.generic_visit(node)
+        if len(node.elts) == 1 and isinstance(node.elts[0], ast.Starred) and isinstance(node.ctx, ast.Load):
+            return ast.Call(func=ast.Name(id="list", ctx=ast.Load()), args=[node.elts[0].value], keywords=[])  # [*x] -> list(x)
+        return self._splice(node)
+
+    def visit_Tuple(self, node):
+        self.generic_visit(node)
+        return self._splice(node)
+
+    @staticmethod
+    def _splice(node):
+        # (a, *(b, c)) -> (a, b, c)
+        if isinstance(node.ctx, ast.Load) and any(isinstance(e, ast.Starred) and isinstance(e.value, (ast.Tuple, ast.List)) for e in node.elts):
+            elts = []
+            for e in node.elts:
+                if isinstance(e, ast.Starred) and isinstance(e.value, (ast.Tuple, ast.List)):
+                    elts.extend(e.value.elts)
+                else:
+                    elts.append(e)
+            node.elts = elts
+        return node
+
     def visit_Attribute(self, node):
         self.generic_visit(node)
+        nt = _nt_fields(node.value)
+        if nt is not None and node.attr in nt:
+            return nt[node.attr]  # _Pair(a=x, b=y).a -> x
         # <qtype>.dtype.is_floating_point -> <qtype>.is_floating_point (the qtype table keeps the two equal: C01.R3 checks it)
         if node.attr == "is_floating_point" and isinstance(node.value, ast.Attribute) and node.value.attr == "dtype":
             base = node.value.value
@@ -479,6 +619,9 @@ class _Canon(ast.NodeTransformer):
     def visit_Subscript(self, node):
         self.generic_visit(node)
         v = node.value
+        nt = _nt_fields(v)
+        if nt is not None and isinstance(node.slice, ast.Constant) and isinstance(node.slice.value, int) and -len(nt) <= node.slice.value < len(nt):
+            return list(nt.values())[node.slice.value]
         # dotted-name surgery: s.rpartition(sep)[0] / s.rsplit(sep, 1)[0] -> s[:s.rindex(sep)];  [2] / [-1] / [1] -> s.split(sep)[-1]
         # (equal whenever sep occurs in s, which is what the guards of the callers establish)
         if isinstance(v, ast.Call) and isinstance(v.func, ast.Attribute) and isinstance(node.slice, (ast.Constant, ast.UnaryOp)) and not v.keywords:
@@ -499,6 +642,22 @@ class _Canon(ast.NodeTransformer):
 
     def visit_BinOp(self, node):
         self.generic_visit(node)
+        # (x + "a") + "b" -> x + "ab"
+        if isinstance(node.op, ast.Add) and isinstance(node.right, ast.Constant) and isinstance(node.right.value, str):
+            l = node.left
+            if isinstance(l, ast.Constant) and isinstance(l.value, str):
+                return ast.Constant(value=l.value + node.right.value)
+            if isinstance(l, ast.BinOp) and isinstance(l.op, ast.Add) and isinstance(l.right, ast.Constant) and isinstance(l.right.value, str):
+                return ast.BinOp(left=l.left, op=ast.Add(), right=ast.Constant(value=l.right.value + node.right.value))
+        # (a,) + (b, c) -> (a, b, c)
+        if isinstance(node.op, ast.Add) and isinstance(node.left, ast.Tuple) and isinstance(node.right, ast.Tuple):
+            return ast.Tuple(elts=list(node.left.elts) + list(node.right.elts), ctx=ast.Load())
+        # (x,) * 3 -> (x, x, x)
+        if isinstance(node.op, ast.Mult):
+            for seq, k in ((node.left, node.right), (node.right, node.left)):
+                if isinstance(seq, (ast.Tuple, ast.List)) and isinstance(k, ast.Constant) and isinstance(k.value, int) and not isinstance(k.value, bool) and 0 <= k.value * len(seq.elts) <= 16 \
+                        and all(isinstance(e, ast.Constant) for e in seq.elts):
+                    return type(seq)(elts=[copy.deepcopy(e) for _ in range(k.value) for e in seq.elts], ctx=ast.Load())
         if isinstance(node.op, ast.LShift) and isinstance(node.left, ast.Constant) and node.left.value == 1:
             return ast.BinOp(left=ast.Constant(value=2), op=ast.Pow(), right=node.right)
         return node
@@ -526,6 +685,24 @@ class _Canon(ast.NodeTransformer):
                 vals.extend(v.values)
             else:
                 vals.append(v)
+        # x is c or x == c -> one test (identity for None, equality otherwise)
+        if isinstance(node.op, ast.Or):
+            keep = []
+            for v in vals:
+                dup = False
+                if isinstance(v, ast.Compare) and len(v.ops) == 1 and isinstance(v.ops[0], (ast.Is, ast.Eq)):
+                    for i, w in enumerate(keep):
+                        if isinstance(w, ast.Compare) and len(w.ops) == 1 and isinstance(w.ops[0], (ast.Is, ast.Eq)) and type(w.ops[0]) is not type(v.ops[0]) \
+                                and ast.unparse(w.left) == ast.unparse(v.left) and ast.unparse(w.comparators[0]) == ast.unparse(v.comparators[0]):
+                            isnone = isinstance(v.comparators[0], ast.Constant) and v.comparators[0].value is None
+                            keep[i] = ast.Compare(left=v.left, ops=[ast.Is() if isnone else ast.Eq()], comparators=v.comparators)
+                            dup = True
+                            break
+                if not dup:
+                    keep.append(v)
+            vals = keep
+            if len(vals) == 1:
+                return vals[0]
         # neutral / absorbing literals
         isand = isinstance(node.op, ast.And)
         if any(isinstance(v, ast.Constant) and isinstance(v.value, bool) for v in vals):
@@ -566,6 +743,18 @@ class _Canon(ast.NodeTransformer):
                 parts.append(self.visit_Compare(ast.Compare(left=copy.deepcopy(left), ops=[op], comparators=[right])))
                 left = right
             return self.visit_BoolOp(ast.BoolOp(op=ast.And(), values=parts))
+        def _lit(x):
+            return isinstance(x, ast.Constant) or (isinstance(x, ast.UnaryOp) and isinstance(x.op, ast.USub) and isinstance(x.operand, ast.Constant))
+        if len(node.ops) == 1 and _lit(node.left) and not _lit(node.comparators[0]):
+            # 0 == axis -> axis == 0 (constants on the right)
+            mirror = {ast.Eq: ast.Eq, ast.NotEq: ast.NotEq, ast.Is: ast.Is, ast.IsNot: ast.IsNot, ast.Lt: ast.Gt, ast.Gt: ast.Lt, ast.LtE: ast.GtE, ast.GtE: ast.LtE}
+            m = mirror.get(type(node.ops[0]))
+            if m is not None:
+                node = ast.Compare(left=node.comparators[0], ops=[m()], comparators=[node.left])
+        if len(node.ops) == 1 and isinstance(node.ops[0], (ast.Eq, ast.Is)):
+            for a, b in ((node.left, node.comparators[0]), (node.comparators[0], node.left)):
+                if isinstance(b, ast.Constant) and isinstance(b.value, bool) and isinstance(a, ast.Call) and isinstance(a.func, ast.Name) and a.func.id == "bool" and len(a.args) == 1:
+                    return a.args[0] if b.value else self.visit_UnaryOp(ast.UnaryOp(op=ast.Not(), operand=a.args[0]))
         if len(node.ops) == 1:
             # type(x) is T -> type(x) == T ;  x in [a, b] -> x in (a, b)
             if isinstance(node.ops[0], (ast.Is, ast.IsNot)) and isinstance(node.left, ast.Call) and isinstance(node.left.func, ast.Name) and node.left.func.id == "type":
@@ -667,10 +856,42 @@ class FactDict(dict):
                 return [(f"{b}{mirror}{a}", True), (f"{a}{neg}{b}", False), (f"{b}{negm}{a}", False)]
         return []
 
+    def _membership(self, k: str):
+        """`x in (a, b)` from the facts `x == a`, `x == b` (any true -> true; all false -> false); `x is None` counts for a None member."""
+        for op, pos in ((" not in (", False), (" in (", True)):
+            if op in k and k.endswith(")") and " and " not in k and " or " not in k and " if " not in k:
+                left, rest = k.split(op, 1)
+                if left.count("(") != left.count(")"):
+                    return False, None
+                try:
+                    elts = [ast.unparse(e) for e in ast.parse("(" + rest, mode="eval").body.elts]
+                except Exception:
+                    return False, None
+                vals = []
+                for e in elts:
+                    found = False
+                    for cand in ((f"{left} is {e}", f"{left} == {e}", f"{e} == {left}") if e == "None" else (f"{left} == {e}", f"{e} == {left}")):
+                        if dict.__contains__(self, cand):
+                            vals.append(dict.__getitem__(self, cand))
+                            found = True
+                            break
+                    if not found:
+                        vals.append(None)
+                if any(v is True for v in vals):
+                    return True, pos
+                if vals and all(v is False for v in vals):
+                    return True, not pos
+                return False, None
+        return False, None
+
     def _find(self, key):
         k = self._k(key)
         if dict.__contains__(self, k):
             return True, dict.__getitem__(self, k)
+        if isinstance(k, str) and " in (" in k:
+            found, v = self._membership(str(k))
+            if found:
+                return True, v
         if isinstance(k, str):
             for alt, same in self._equivalents(str(k)):
                 if dict.__contains__(self, alt):
@@ -1009,6 +1230,14 @@ class InlineCtx:
                 return node
 
             def visit_Name(self, node):
+                if isinstance(node.ctx, ast.Load) and node.id in p.closures and node.id not in p.env:
+                    # a nested one-expression function passed as a value: the equivalent lambda
+                    h = p.closures[node.id][0]
+                    if isinstance(h, ast.FunctionDef) and not h.decorator_list and not h.args.vararg and not h.args.kwarg and not h.args.defaults and not h.args.kwonlyargs:
+                        body = [b for b in h.body if not (isinstance(b, ast.Expr) and isinstance(b.value, ast.Constant))]
+                        if len(body) == 1 and isinstance(body[0], ast.Return) and body[0].value is not None:
+                            lam = ast.Lambda(args=ast.arguments(posonlyargs=[], args=[ast.arg(arg=a.arg) for a in h.args.args], vararg=None, kwonlyargs=[], kw_defaults=[], kwarg=None, defaults=[]), body=copy.deepcopy(body[0].value))
+                            return ast.copy_location(lam, node)
                 if isinstance(node.ctx, ast.Load) and node.id not in local and node.id.startswith("_") and not node.id.startswith("__") and node.id not in VOCABULARY:
                     # a private one-expression function passed as a value: the equivalent lambda
                     r = repo_.resolve(mi, node.id)
@@ -1025,7 +1254,12 @@ class InlineCtx:
                         v = r[1] if r is not None else None
                     if isinstance(v, ast.Constant) and isinstance(v.value, (int, float, str)) and not isinstance(v.value, bool):
                         return ast.copy_location(ast.Constant(value=v.value), node)
-                    if isinstance(v, (ast.Tuple, ast.List)) and all(isinstance(x, (ast.Constant, ast.Name)) or (isinstance(x, ast.UnaryOp) and isinstance(x.operand, ast.Constant)) for x in v.elts):
+                    def simple(x, d=0):
+                        return isinstance(x, (ast.Constant, ast.Name)) or (isinstance(x, ast.UnaryOp) and isinstance(x.operand, ast.Constant)) \
+                            or (isinstance(x, ast.Attribute) and attr_chain(x) is not None) or (d < 2 and isinstance(x, (ast.Tuple, ast.List)) and all(simple(y, d + 1) for y in x.elts))
+                    if isinstance(v, ast.BinOp):
+                        v = canon_ast(v)  # (None,) * 4
+                    if isinstance(v, (ast.Tuple, ast.List)) and all(simple(x) for x in v.elts):
                         return ast.copy_location(copy.deepcopy(v), node)
                 return node
 
@@ -1057,7 +1291,9 @@ class InlineCtx:
                     if m is not None and not any(U(d) in ("property",) for d in m[1].decorator_list):
                         hfn, hmi = m[1], m[0].mod
                         skip = 0 if any(U(d) == "staticmethod" for d in m[1].decorator_list) else 1
-            elif isinstance(f, ast.Attribute) and isinstance(f.value, ast.Name) and f.attr.startswith("_") and not f.attr.startswith("__") and f.attr not in KEEP_METHODS:
+            elif isinstance(f, ast.Attribute) and isinstance(f.value, ast.Name) and not f.attr.startswith("__") and f.attr not in KEEP_METHODS \
+                    and (f.attr.startswith("_") or (f.value.id.startswith("_") and not f.value.id.startswith("__") and f.value.id[1:2].isupper())):
+                # a private static/class method, or any static/class method of a private namespace class (`_Helpers.run(...)`)
                 r = self.repo.resolve(self.mi, f.value.id)
                 if r is not None and isinstance(r[1], ast.ClassDef):
                     ci = next((c for c in self.repo.classes.get(r[1].name, []) if c.node is r[1]), None)
@@ -1322,10 +1558,10 @@ class PathEnum:
         rules' vocabulary.  A helper with several paths forks the caller's path; a raising helper path ends it."""
         if expr is None:
             return [(None, p)]
-        e = canon_ast(subst(expr, p.env))  # every value the rules see is canonically spelled
+        e = subst(expr, p.env)
         if self.ctx is None or self.depth <= 0:
-            return [(e, p)]
-        e = self.ctx.resolve_constants(e, self.fn, p)
+            return [(canon_ast(e), p)]
+        e = canon_ast(self.ctx.resolve_constants(e, self.fn, p))  # every value the rules see is canonically spelled
         results = [(e, p)]
         for _ in range(6):  # a few inlinable calls per statement at most
             nxt, changed = [], False
@@ -1443,6 +1679,11 @@ def set_active_repo(repo: "Repo"):
                     _CLASS_OF.setdefault(id(n), ci)
     _SIGNATURES.clear()
     _CANON_CACHE.clear()
+    _NAMEDTUPLES.clear()
+    for lst in repo.classes.values():
+        for ci in lst:
+            if any(b.split(".")[-1] == "NamedTuple" for b in ci.bases):
+                _NAMEDTUPLES[ci.name] = [n.target.id for n in ci.node.body if isinstance(n, ast.AnnAssign) and isinstance(n.target, ast.Name)]
     counts: Dict[str, int] = {}
     for mi in repo.modules.values():
         if not mi.rel.startswith("optimum/"):
@@ -1563,6 +1804,19 @@ def canon_function_inlined(fn: ast.FunctionDef, helpers: Optional[dict] = None) 
     _PRED_FN[id(c)] = c
     _KEEPALIVE.append(fn)
     return c
+
+
+def namespace_method(fn: ast.FunctionDef, cls_name: str, meth: str):
+    """The static method `meth` of the module-level class `cls_name` visible from `fn` (a private namespace class), or None."""
+    c = module_lookup(fn, cls_name)
+    if not isinstance(c, ast.ClassDef):
+        return None
+    for n in c.body:
+        if isinstance(n, ast.FunctionDef) and n.name == meth and any(ast.unparse(d) == "staticmethod" for d in n.decorator_list):
+            if id(fn) in _MODULE_OF and id(n) not in _MODULE_OF:
+                _MODULE_OF[id(n)] = _MODULE_OF[id(fn)]
+            return n
+    return None
 
 
 def module_lookup(fn: ast.FunctionDef, name: str):
